@@ -331,21 +331,29 @@ impl<'a> Gen<'a> {
             }
             Act::CB => {
                 let (st, _) = self.orch.cycle_begin();
+                let obs = if st == St::Panicked { "panic" } else { "-" };
                 self.set_coll(st);
-                self.log(tb, "CB", "-");
+                self.log(tb, "CB", obs);
             }
             Act::CP => {
                 let (st, _) = self.orch.release(COLLECTOR);
+                let obs = if st == St::Panicked { "panic" } else { "-" };
                 self.set_coll(st);
-                self.log(tb, "CP", "-");
+                self.log(tb, "CP", obs);
             }
             Act::CC => {
                 let (st, _) = self.orch.release(COLLECTOR);
+                let obs = if st == St::Panicked { "panic" } else { "-" };
                 self.set_coll(st);
-                self.log(tb, "CC", "-");
+                self.log(tb, "CC", obs);
             }
             Act::CX => {
                 let (st, _) = self.orch.release(COLLECTOR);
+                if st == St::Panicked {
+                    self.set_coll(st);
+                    self.log(tb, "CX", "panic");
+                    return;
+                }
                 self.set_coll(st);
                 let rep = self.orch.take_report();
                 let stats = verif::collector_stats();
